@@ -387,8 +387,9 @@ fn w_variants(ctx: &mut Ctx) {
                     let majority = ['S', 'P', 'D'].into_iter().max_by_key(|c| classes.iter().filter(|x| *x == c).count()).unwrap();
                     let data_scale = base.q.iter().chain(&base.b).chain(&base.A.nzval).chain(&base.P.nzval).fold(1.0f64, |m, v| m.max(v.abs()));
                     let all_blowup = runs.iter().filter(|(mp, _)| verdict_class(mp.status) != majority).all(|(mp, _)| mp.init_norm > 1e20 * data_scale);
-                    // second recorded mechanism: objective scaled by >= 1e4 or <= 1e-4 while equilibration is OFF
-                    let all_extreme = runs.iter().filter(|(mp, _)| verdict_class(mp.status) != majority).all(|(mp, _)| !mp.equilibrated && !(2e-4..=5e3).contains(&mp.cscale));
+                    // second recorded mechanism: objective rescaled (by more than a factor 2 either way) while equilibration is OFF
+                    // (first witnesses at 1e4, 1e6, 1e-6; seed 112 added 0.01 and 10)
+                    let all_extreme = runs.iter().filter(|(mp, _)| verdict_class(mp.status) != majority).all(|(mp, _)| !mp.equilibrated && !(0.5..=2.0).contains(&mp.cscale));
                     // third recorded mechanism: equilibration ON, but the objective scale lies beyond what its cost
                     // normalisation may compensate (the factor c is clipped to [equilibrate_min_scaling,
                     // equilibrate_max_scaling] = [1e-4, 1e4]): scales 1e6 / 1e-6 stay 100-fold off
